@@ -70,6 +70,26 @@ example : Ref.read T (renderRule (capRule true true [S "kill", S "chown", S "kil
   rw [C12_capability_all_lists true true _ (by decide +kernel)]
   decide +kernel
 
+/-- **File rules, any path** (symbolic): for every qualifier, with or without `owner`, EVERY path word
+(begins with `/` or `@`; no blank, quote, parenthesis or `#`; accepted as a path token, i.e. its
+variable references are well formed and it holds no `,,`) and every non-empty permission string, the
+reference reader finds in the printed text exactly that path as the subject, the same qualifier and
+owner flag, and the permission string the rule states (read by `readMode`: letters of the access
+table plus at most one exec transition). Paths with a blank are the known class `K_spaceUnquoted`. -/
+theorem C12_file_all_paths (audit deny owner : Bool) (p : Text) (acc : List Text)
+    (hp : PathHead p) (hps : SimpleW p ∧ '#' ∉ p) (hpt : isPathTok p = true)
+    (hm : SimpleW acc.flatten ∧ '#' ∉ acc.flatten) :
+    Ref.read T (renderRule (fileRule audit deny owner p acc) (padOf [])) =
+      (readMode T acc.flatten).map (fun a =>
+        mkR "file" { audit := audit, deny := deny, owner := owner } [.b owner, .s p, .l a, .s []]) :=
+  read_file T audit deny owner p acc hp hps hpt hm
+
+example : Ref.read T (renderRule (fileRule false true true (S "@{user_config_dirs}/app{,.d}/[a-z]*.conf") [S "r", S "w", S "Px"]) (padOf []))
+    = some (mkR "file" { deny := true, owner := true } [.b true, .s (S "@{user_config_dirs}/app{,.d}/[a-z]*.conf"), .l [S "r", S "w", S "Px"], .s []]) := by
+  rw [C12_file_all_paths false true true (S "@{user_config_dirs}/app{,.d}/[a-z]*.conf") [S "r", S "w", S "Px"]
+    ⟨'@', (S "{user_config_dirs}/app{,.d}/[a-z]*.conf"), by decide +kernel, Or.inr rfl⟩ (by decide +kernel) (by decide +kernel) (by decide +kernel)]
+  decide +kernel
+
 theorem C12_ptrace_read :
     ∀ a ∈ reqValues T "ptrace" "access", ∀ q ∈ quals,
       readsBack (mk "ptrace" q (S " c") [.l [a], .s (S "\"@{p_systemd}\"")]) = true := by decide +kernel
